@@ -616,6 +616,7 @@ func main() {
 	// and sources) must map to pairwise distinct record files, each directly inside its kind's
 	// directory under the build-state directory.
 	recordPaths(r)
+	directoryNames(r)
 
 	wantParse := totalStrings(labelAlpha, maxLabel)
 	wantPaths := totalStrings(pathAlpha, maxPath) * int64(3) * 2
@@ -711,4 +712,55 @@ func recordPaths(r *vlib.Run) {
 	}
 	r.Add("record_paths", int64(n))
 	r.Extra["record_paths_checked"] = n
+}
+
+// directoryNames: the loader turns the names of the project's directories into package labels.
+// Every directory name of <=3 characters over {a, :, ., @, space, -} (and some longer ones),
+// with a BUILD.dawn inside and one level further down, must not crash Load: the outcome is a
+// loaded project or an error.
+func directoryNames(r *vlib.Run) {
+	names := []string{"notes:2024", "a:b:c", "..."}
+	al := []string{"a", ":", ".", "@", " ", "-"}
+	cur := []string{""}
+	for n := 0; n < 3; n++ {
+		var next []string
+		for _, p := range cur {
+			for _, c := range al {
+				next = append(next, p+c)
+			}
+		}
+		names = append(names, next...)
+		cur = next
+	}
+	var mu sync.Mutex
+	r.Parallel(len(names), func(i int) {
+		name := names[i]
+		if name == "." || name == ".." || strings.ContainsRune(name, '/') {
+			return
+		}
+		root, err := os.MkdirTemp(r.Scratch, "dirname")
+		if err != nil {
+			vlib.Fatalf("%v", err)
+		}
+		defer os.RemoveAll(root)
+		os.WriteFile(filepath.Join(root, "dawn.toml"), []byte("name = \"p\"\n"), 0o644)
+		os.WriteFile(filepath.Join(root, "BUILD.dawn"), []byte("x = 1\n"), 0o644)
+		for _, d := range []string{name, filepath.Join(name, "sub"), filepath.Join("ok", name)} {
+			if err := os.MkdirAll(filepath.Join(root, d), 0o755); err != nil {
+				return // the file system refuses the name
+			}
+			os.WriteFile(filepath.Join(root, d, "BUILD.dawn"), []byte("y = 2\n"), 0o644)
+		}
+		var pv any
+		func() {
+			defer func() { pv = recover() }()
+			dawn.Load(root, &dawn.LoadOptions{})
+		}()
+		mu.Lock()
+		r.Add("directory_names_loaded", 1)
+		mu.Unlock()
+		if pv != nil {
+			r.Violation("C12:load-panic-on-directory-name", fmt.Sprintf("Load of a project with a directory named %q panicked: %v", name, pv), map[string]any{"directory": name, "panic": fmt.Sprint(pv)})
+		}
+	})
 }
